@@ -8,6 +8,21 @@ VERIF = os.path.dirname(os.path.dirname(os.path.abspath(__file__)))
 ALL = [f"C{i:02d}" for i in range(1, 21)]
 
 CHECKS = {
+    "C17": dict(
+        category="exploration",
+        technique="bounded-exhaustive enumeration of payload x injection site x path on the real server under an interpreter audit-hook monitor and a file-system oracle",
+        text=("Exhaustive enumeration of adversarial workspaces — 13 host-language payloads carrying a marker x 22 injection "
+              "sites (#if/#elif text, macro bodies reaching #if directly, through headers, configuration, command line, "
+              "multi-line and function-like macros, lower-case pp suffix, INCLUDE, strings, directive names, configuration "
+              "strings) x 4 paths (start-up, didOpen, didChange, didSave) each followed by positional requests on every "
+              "line — executed on the real server under a PEP 578 audit hook. Monitor: no compile/exec of marker text, no "
+              "process/socket event, no write-type file event outside the debug log; plus a tree-hash oracle of the "
+              "workspace and a canary directory. A slice also runs through the real executable (real worker pool)."),
+        note=("Trusted: CPython's audit events (compile, exec, open, os.*, subprocess.Popen, socket.connect) are raised for "
+              "every such action in the harness process; parsing is forced into that process by the synchronous pool "
+              "stand-in. Payload/site catalogue is finite; contents outside it are not covered."),
+        design="DESIGN.md §4 C17",
+    ),
     "C03": dict(
         category="exploration",
         technique="bounded-exhaustive enumeration of fragment strings, all prefixes and all single mutations of the corpus through the real indexing path, with a hard watchdog",
